@@ -38,18 +38,23 @@ class World:
         from cryptography.hazmat.primitives import serialization as S
         self.kind = kind
         self.jwk = K.get(kind, 0)
-        native = R.jwk_to_native(self.jwk, True)
-        pem = native.private_bytes(S.Encoding.PEM, S.PrivateFormat.PKCS8, S.NoEncryption())
-        ppem = native.public_key().public_bytes(S.Encoding.PEM, S.PublicFormat.SubjectPublicKeyInfo)
-        self.key = JWKRegistry.import_key(pem, self.jwk["kty"])
-        self.pub = JWKRegistry.import_key(ppem, self.jwk["kty"])
+        if self.jwk["kty"] == "oct":
+            raw = R.b64d(self.jwk["k"])                      # imported from raw octets: the JWK view is built lazily
+            self.key = JWKRegistry.import_key(raw, "oct")
+            self.pub = JWKRegistry.import_key(raw, "oct")
+        else:
+            native = R.jwk_to_native(self.jwk, True)
+            pem = native.private_bytes(S.Encoding.PEM, S.PrivateFormat.PKCS8, S.NoEncryption())
+            ppem = native.public_key().public_bytes(S.Encoding.PEM, S.PublicFormat.SubjectPublicKeyInfo)
+            self.key = JWKRegistry.import_key(pem, self.jwk["kty"])
+            self.pub = JWKRegistry.import_key(ppem, self.jwk["kty"])
         self.thumb = R.thumbprint(self.jwk)
-        self.alg = {"EC:P-256": "ES256", "RSA2048": "RS256", "OKP:Ed25519": "EdDSA"}[kind]
+        self.alg = {"EC:P-256": "ES256", "RSA2048": "RS256", "OKP:Ed25519": "EdDSA", "oct256": "HS256"}[kind]
         self.key2 = J.fresh_jkey(K.get(kind, 1))
         self.ks = KeySet([self.key2])
         self.token = R.jws_compact(R.jdump({"alg": self.alg}), b"signed payload", self.alg, self.jwk)
         self.token2 = R.jws_compact(R.jdump({"alg": self.alg, "cty": "two"}), b"the second signed payload", self.alg, self.jwk)
-        self.jalg = "ECDH-ES" if kind.startswith("EC") else "RSA-OAEP"
+        self.jalg = "ECDH-ES" if kind.startswith("EC") else ("A256KW" if kind == "oct256" else "RSA-OAEP")
         self.jwe_token = R.jwe_compact(R.jwe_encrypt({"alg": self.jalg, "enc": "A128GCM"}, b"secret plaintext", [{"jwk": self.jwk}])) \
             if kind != "OKP:Ed25519" else None
         self.jwe_token2 = R.jwe_compact(R.jwe_encrypt({"alg": self.jalg, "enc": "A128CBC-HS256"}, b"another secret plaintext!", [{"jwk": self.jwk}])) \
@@ -74,21 +79,21 @@ class World:
         elif name == "sign":
             def f(): return ("jws", jws.serialize_compact({"alg": w.alg}, b"message", w.key, algorithms=[w.alg]))
         elif name == "sign2":
-            def f(): return ("jws", jws.serialize_compact({"alg": w.alg, "cty": "2"}, b"message", w.key, algorithms=[w.alg]))
+            def f(): return ("jws", jws.serialize_compact({"alg": w.alg, "cty": "2"}, b"message", w.key, algorithms=[w.alg, "PS384"]))
         elif name == "verify2":
             def f(): return ("payload2", jws.deserialize_compact(w.token2, w.pub, algorithms=[w.alg]).payload)
         elif name == "encrypt2":
-            def f(): return ("jwe", jwe.encrypt_compact({"alg": w.jalg, "enc": "A128CBC-HS256"}, b"plaintext", w.pub))
+            def f(): return ("jwe", jwe.encrypt_compact({"alg": w.jalg, "enc": "A128CBC-HS256"}, b"plaintext", w.pub, algorithms=["A128CBC-HS256", w.jalg]))
         elif name == "decrypt2":
-            def f(): return ("plaintext2", jwe.decrypt_compact(w.jwe_token2, w.key).plaintext)
+            def f(): return ("plaintext2", jwe.decrypt_compact(w.jwe_token2, w.key, algorithms=[w.jalg, "A128CBC-HS256"]).plaintext)
         elif name == "sign_ks":
             def f(): return ("jws2", jws.serialize_compact({"alg": w.alg}, b"message", w.ks, algorithms=[w.alg]))
         elif name == "verify":
             def f(): return ("payload", jws.deserialize_compact(w.token, w.pub, algorithms=[w.alg]).payload)
         elif name == "encrypt":
-            def f(): return ("jwe", jwe.encrypt_compact({"alg": w.jalg, "enc": "A128GCM"}, b"plaintext", w.pub))
+            def f(): return ("jwe", jwe.encrypt_compact({"alg": w.jalg, "enc": "A128GCM"}, b"plaintext", w.pub, algorithms=[w.jalg, "A128GCM"]))
         elif name == "decrypt":
-            def f(): return ("plaintext", jwe.decrypt_compact(w.jwe_token, w.key).plaintext)
+            def f(): return ("plaintext", jwe.decrypt_compact(w.jwe_token, w.key, algorithms=[w.jalg, "A128GCM", "DEF"]).plaintext)
         else:
             raise ValueError(name)
         return f
@@ -102,7 +107,10 @@ class World:
         if kind == "thumb": return None if v == self.thumb else "wrong thumbprint"
         if kind == "maybekid": return None if v in (None, self.thumb) else f"kid {v!r}"
         if kind == "dict":
-            conf = R.native_to_jwk(R.jwk_to_native(self.jwk, True), "d" in v or "p" in v)
+            if self.jwk["kty"] == "oct":
+                conf = {"kty": "oct", "k": self.jwk["k"]} if "k" in v else {"kty": "oct"}
+            else:
+                conf = R.native_to_jwk(R.jwk_to_native(self.jwk, True), "d" in v or "p" in v)
             core = {k: x for k, x in v.items() if k != "kid"}
             if core != conf: return "JWK view differs from isolation"
             return None if v.get("kid", self.thumb) == self.thumb else "wrong kid in view"
@@ -221,7 +229,7 @@ def histories(ctx: Ctx, n: int):
     bad = []
     cnt = 0
     for seq in seqs:
-        w = World(["EC:P-256", "RSA2048"][len(seq) % 2])
+        w = World(["EC:P-256", "RSA2048", "oct256"][len(seq) % 3])
         for i, name in enumerate(seq):
             if name in ("encrypt", "decrypt", "encrypt2", "decrypt2") and w.jwe_token is None:
                 continue
@@ -251,7 +259,7 @@ def run(ctx: Ctx) -> None:
     import multiprocessing as mp
     from .common import NCPU, _pool_init
     _pool_init()
-    kinds = ["EC:P-256"] + (["RSA2048"] if thorough else [])
+    kinds = ["EC:P-256", "oct256"] + (["RSA2048"] if thorough else [])
     pairs = []
     for kind in kinds:
         for i, a in enumerate(OPS):
@@ -261,7 +269,7 @@ def run(ctx: Ctx) -> None:
                 pairs.append((kind, a, b, stride, ctx.seed, 40 if thorough else 6))
     with mp.get_context("fork").Pool(NCPU) as pool:
         res = pool.map(explore, pairs, chunksize=1)
-        st = pool.map(stress, [(k, 32 if thorough else 16, 40 if thorough else 6, ctx.seed + i) for i, k in enumerate(["EC:P-256", "RSA2048", "OKP:Ed25519"] * (4 if thorough else 1))], chunksize=1)
+        st = pool.map(stress, [(k, 32 if thorough else 16, 40 if thorough else 6, ctx.seed + i) for i, k in enumerate(["EC:P-256", "RSA2048", "OKP:Ed25519", "oct256"] * (4 if thorough else 1))], chunksize=1)
     nsched = 0
     for (kind, a, b, na, nb), n, found in res:
         nsched += n
